@@ -164,8 +164,10 @@ class Job:
                 return self._profiled(fn)
             return fn()
 
+        self.last_leaves = []
         for leaf in symx.explore(run, assumptions, **kw):
             self.paths[leaf.kind] += 1
+            self.last_leaves.append((leaf.kind, type(leaf.value).__name__ if isinstance(leaf.value, BaseException) else "", str(leaf.value)[:120]))
             if leaf.kind == "inconclusive":
                 self.errors.append("inconclusive path: %s" % (leaf.value,))
             yield leaf
@@ -313,6 +315,16 @@ class Job:
         self.results.append(res)
         return res["status"]
 
+    def unreached(self, tag):
+        """no leaf of the last exploration reached the assertion.  If the code left the reach of the engine (a proxy was forced
+        into a C-level routine: Unsupported / TypeError), the obligations of this harness are inconclusive -- never a verdict
+        and not a harness error; otherwise the harness is vacuous (exit 2)."""
+        out = [l for l in getattr(self, "last_leaves", []) if l[0] == "inconclusive" or (l[0] == "raised" and l[1] in ("TypeError", "AttributeError"))]
+        if out:
+            self.record(tag + "/*", "inconclusive", "the code is out of reach of the lifted execution here (%s: %s)" % (out[0][1] or "Unsupported", out[0][2]), nontrivial=False)
+        else:
+            self.vacuity["failed"].append("%s: no path reached the assertion" % tag)
+
     def judge(self, oid, ok, detail, replay, inputs, nontrivial=True):
         """a structural fact observed on the lifted run (lengths, identities, tags): discharged if it holds, otherwise
         reported as a violation only when the replay on the real code reproduces it"""
@@ -367,6 +379,39 @@ class Job:
                         continue
                 out.append(v1 == v2)
         return out
+
+    def congruence_closure(self, conds, names=None, timeout=3, max_pairs=400):
+        """bottom-up congruence closure over the purified applications (creation order): a pair of applications of the same
+        function is merged when its arguments are identical after rewriting already merged variables, or when a small
+        arithmetic query shows them equal under `conds`.  Returns (equalities, rewrite list); sound for unsat."""
+        apps = [(v, name, args) for (v, name, args) in Pure.tab.values() if names is None or name in names]
+        rep = {}  # var id -> representative var
+        rw, eqs = [], []
+        by = {}
+        n = 0
+        for v, name, args in apps:  # Pure.tab preserves creation order
+            cur = [z3.simplify(z3.substitute(a, *rw)) if rw else a for a in args]
+            for (v2, args2) in by.get((name, len(args)), []):
+                if n >= max_pairs:
+                    break
+                same = all(x.eq(y) for x, y in zip(cur, args2))
+                if not same:
+                    pre = z3.simplify(z3.And(*[x == y for x, y in zip(cur, args2)])) if cur else z3.BoolVal(True)
+                    if z3.is_false(pre):
+                        continue
+                    n += 1
+                    sol = self._solver(list(conds) + eqs + [z3.Not(pre)], timeout)
+                    t0 = time.time()
+                    r = checked(sol, timeout)
+                    self.solver_time += time.time() - t0
+                    same = r == z3.unsat
+                if same:
+                    eqs.append(v == v2)
+                    rw.append((v, v2))
+                    break
+            else:
+                by.setdefault((name, len(args)), []).append((v, cur))
+        return eqs, rw
 
     def feasible(self, conds, timeout=10):
         """is this leaf reachable at all under the extra constraints? (filter, not a vacuity verdict)"""
